@@ -45,9 +45,21 @@ pub struct RefErr {
     pub code: i16,
     pub msg: Vec<u8>,
     pub ext: Option<Vec<u8>>,
-    /// only the error *class* is pinned by the properties (syntax / data-type faults: "a command
-    /// error"); the implementation's actual error of that class is adopted by the model
-    pub class_only: bool,
+    /// how much of this error the properties pin
+    pub pin: Pin,
+}
+
+/// What the properties fix about the error a failing unit raises.
+#[derive(Clone, Copy, Debug, PartialEq, Eq, Hash)]
+pub enum Pin {
+    /// raised by a rig handler: number and extended text are known exactly
+    Exact,
+    /// raised by the library with a number the properties name (-113, -108, -109, -222): the
+    /// number is pinned, message / extended text of the actual error are adopted by the model
+    Code,
+    /// raised by the library for a syntax / data-type fault: only the IEEE 488.2 class is pinned;
+    /// the actual error of that class is adopted by the model
+    Class,
 }
 
 impl RefErr {
@@ -56,12 +68,18 @@ impl RefErr {
             code: e.get_code(),
             msg: e.get_message().to_vec(),
             ext: e.get_extended().map(|x| x.to_vec()),
-            class_only: false,
+            pin: Pin::Exact,
         }
     }
     pub fn any_of_class(mut self) -> RefErr {
-        self.class_only = true;
+        self.pin = Pin::Class;
         self
+    }
+    /// library-raised error with a number named by the properties
+    pub fn lib(code: i16) -> RefErr {
+        let mut e = RefErr::std(code);
+        e.pin = Pin::Code;
+        e
     }
     /// Standard error by number; the message text is the library's table (C14 checks the table).
     pub fn std(code: i16) -> RefErr {
@@ -70,13 +88,13 @@ impl RefErr {
                 code,
                 msg: e.get_message().to_vec(),
                 ext: None,
-                class_only: false,
+                pin: Pin::Exact,
             },
             None => RefErr {
                 code,
                 msg: b"Custom error".to_vec(),
                 ext: None,
-                class_only: false,
+                pin: Pin::Exact,
             },
         }
     }
@@ -604,7 +622,12 @@ impl<Q: HasTree> Lockstep for DevModel<Q> {
                 if let Err(e) = &res {
                     if let Some(u) = units2.iter_mut().find(|u| matches!(u.sem, U::Fail(_))) {
                         if let U::Fail(want) = &u.sem {
-                            if want.class_only && esr_bit_of(want.code) == esr_bit_of(e.get_code()) {
+                            let adopt = match want.pin {
+                                Pin::Exact => false,
+                                Pin::Code => want.code == e.get_code(),
+                                Pin::Class => esr_bit_of(want.code) == esr_bit_of(e.get_code()),
+                            };
+                            if adopt {
                                 u.sem = U::Fail(RefErr::of(e));
                             }
                         }
